@@ -1,7 +1,86 @@
 import Cherab.Drv.Proto
-open Cherab.Drv
+import Cherab.Model.BeamDensity
+open Cherab.Drv Cherab.BeamDensity
 
-/-- C04 driver: not yet implemented (echo) -/
+/-- C04 driver.  State = knots of the line-density interpolator produced by the last `att` command. -/
+abbrev St := List (Float × Float)
+
+def piF : Float := 3.141592653589793
+def degToRadF : Float := piF / 180.0
+def ceilNatF (x : Float) : Nat := (Float.ceil x).toUInt64.toNat
+
+/-- the harness' family of stopping-rate functions (same expression, same order, in harness/props/c04.py) -/
+def rateF (c a b : Float) (e n t : Float) : Float :=
+  c * (1.0 + a * e / (e + 5e4)) * (2.0 - 1.0 / (1.0 + n / 1e19)) * (1.0 + b * t / (t + 1e3))
+
+/-- parse `ns` species headers `Z c a b` -/
+def parseHeads : Nat → List String → List (Nat × Float × Float × Float) × List String
+  | 0, ts => ([], ts)
+  | k + 1, z :: c :: a :: b :: ts =>
+      let (r, ts') := parseHeads k ts
+      ((pN z, pF c, pF a, pF b) :: r, ts')
+  | _, ts => ([], ts)
+
+/-- parse one axis point: for every species `n T vx vy vz` -/
+def parsePoint : List (Nat × Float × Float × Float) → List String → List (Target Float) × List String
+  | [], ts => ([], ts)
+  | (z, c, a, b) :: hs, n :: t :: vx :: vy :: vz :: ts =>
+      let (r, ts') := parsePoint hs ts
+      ({ charge := z, n := pF n, t := pF t, v := (pF vx, pF vy, pF vz), rate := rateF c a b } :: r, ts')
+  | _, ts => ([], ts)
+
+def parsePoints (hs : List (Nat × Float × Float × Float)) : Nat → List String → List (List (Target Float))
+  | 0, _ => []
+  | k + 1, ts =>
+      let (p, ts') := parsePoint hs ts
+      p :: parsePoints hs k ts'
+
+def optF : Option Float → String
+  | some v => fF v
+  | none => "ValueError"
+
+def step (st : St) (ts : List String) : St × String :=
+  match ts with
+  | ["count", l, s] => (st, toString (sampleCount ceilNatF (pF l) (pF s)))
+  | ["node", l, n, i] => (st, fF (node (pF l) (pN n) (pN i)))
+  | ["src", ec, amu, e, p, m] => (st, fF (sourceDensity Float.sqrt (pF ec) (pF amu) (pF e) (pF p) (pF m)))
+  | "rargs" :: ec :: amu :: e :: dx :: dy :: dz :: ns :: rest =>
+      let (hs, rest) := parseHeads (pN ns) rest
+      let (tg, _) := parsePoint hs rest
+      let speed := beamSpeed Float.sqrt (pF ec) (pF amu) (pF e)
+      let bv := beamVelocity Float.sqrt (pF dx, pF dy, pF dz) speed
+      let ds := densitySum tg
+      (st, fFs (tg.foldr (fun s acc =>
+        let a := rateArgs Float.sqrt (evAmuFactor (pF ec) (pF amu)) bv ds s
+        a.1 :: a.2.1 :: a.2.2 :: acc) []))
+  | "att" :: ec :: amu :: e :: p :: m :: l :: n :: dx :: dy :: dz :: ns :: rest =>
+      let (hs, rest) := parseHeads (pN ns) rest
+      let targets := parsePoints hs (pN n) rest
+      let zs := nodes (pF l) (pN n)
+      let speed := beamSpeed Float.sqrt (pF ec) (pF amu) (pF e)
+      let bv := beamVelocity Float.sqrt (pF dx, pF dy, pF dz) speed
+      let ss := targets.map (beamStopping Float.sqrt (evAmuFactor (pF ec) (pF amu)) bv)
+      let knots := calcAttenuation Float.sqrt Float.exp (pF ec) (pF amu) (pF e) (pF p) (pF m)
+        (pF dx, pF dy, pF dz) zs targets
+      (knots, fFs (ss ++ knots.map (·.2)))
+  | ["line", z] => (st, optF (interpEval 1e-9 st (pF z)))
+  | ["dens", sigma, divx, divy, clamp, cs, l, x, y, z] =>
+      let tx := tanDiv Float.tan degToRadF (pF divx)
+      let ty := tanDiv Float.tan degToRadF (pF divy)
+      (st, optF (beamDensity Float.sqrt Float.exp piF (pF sigma) tx ty (pF l) (pB clamp) (pF cs * pF cs)
+        (interpEval 1e-9 st) (pF x) (pF y) (pF z)))
+  | ["adens", sigma, divx, divy, clamp, cs, x, y, z] =>
+      let tx := tanDiv Float.tan degToRadF (pF divx)
+      let ty := tanDiv Float.tan degToRadF (pF divy)
+      (st, optF (attDensity Float.sqrt Float.exp piF (pF sigma) tx ty (pB clamp) (pF cs * pF cs)
+        (interpEval 1e-9 st) (pF x) (pF y) (pF z)))
+  | ["dir", sigma, divx, divy, x, y, z] =>
+      let tx := tanDiv Float.tan degToRadF (pF divx)
+      let ty := tanDiv Float.tan degToRadF (pF divy)
+      let d := beamDirection Float.sqrt (pF sigma) tx ty (pF x) (pF y) (pF z)
+      (st, fFs [d.1, d.2.1, d.2.2])
+  | _ => (st, "bad-op")
+
 def main : IO UInt32 := do
-  loop (stateless fun ts => " ".intercalate ts) (← IO.getStdin) (← IO.getStdout) ()
+  loop step (← IO.getStdin) (← IO.getStdout) ([] : St)
   return 0
